@@ -774,6 +774,18 @@ def check_regions(ctx, rule, label, paths, it, rows, where, allow_opaque=False, 
 # ---------------------------------------------------------------------------
 # X.509 time pivots (C17.b, C05.b)
 
+def time_field_readers(f):
+    """The bodies (closures or functions) of repository::x509 that read the fixed-width fields of a Time value."""
+    out = []
+    for n, b in sorted(f.bodies.items()):
+        if not n.startswith("repository::x509::") or is_derived_body(b) or "::test" in n:
+            continue
+        two = [c for c in b.calls() if (c.res or "").endswith("x509::read_two_char") and not b.is_cleanup(c.bb)]
+        if len(two) >= 5:
+            out.append(b)
+    return out
+
+
 def check_time_pivots(ctx, f):
     from engine.absint import region_constraints as RC, outcome_str
     X = "repository::x509::"
@@ -795,27 +807,29 @@ def check_time_pivots(ctx, f):
                 ("1950≤year≤2049", RC(y, 1950, 2049), utc, "UTCTime"),
                 ("year>2049", RC(y, 2050, None), gen, "GeneralizedTime"),
             ], eb.loc)
-    # decoder pivot in both copies
-    dec_closures = [b for n, b in f.bodies.items() if re.match(r"^repository::x509::Time::take_(opt_)?from::\{closure#\d+\}$", n)]
+    # decoder pivot in every copy of the UTCTime field reader (closures or named functions, wherever they live)
+    dec_closures = time_field_readers(f)
     npiv = 0
     for b in dec_closures:
         oc = outcome(b)
         sym = oc.sym
-        yl = [l for l in range(len(b.locals)) if b.local_name(l) == "year"]
         defs = []
-        for l in yl:
-            for bb, t in sym.defs_of_var(l):
-                defs.append((bb, render(strip_deep(t))))
-            if l not in sym._multi and l not in [x for x in yl if x in sym._multi]:
-                pass
-        piv = [(bb, r) for bb, r in defs if re.search(r"(1900|2000)\)", r)]
+        for bi, blk in enumerate(b.blocks):
+            if blk.get("cleanup"):
+                continue
+            for st in blk["stmts"]:
+                if st["s"] == "assign" and st["rv"]["r"] == "bin" and st["rv"]["bop"] in ("Add", "AddWithOverflow"):
+                    r = render(strip_deep(sym.rvalue(st["rv"])))
+                    if re.search(r"read_two_char\(", r) and re.search(r", (1900|2000)\)$", r):
+                        defs.append((bi, r))
+        piv = defs
         if not piv:
             continue
         npiv += 1
         edges_true = set()
         for bi, blk in enumerate(b.blocks):
             if blk["term"]["t"] == "switch":
-                e = order_literal_edges(b, sym, bi, r"^50$", r"read_two_char\(prim\)")
+                e = order_literal_edges(b, sym, bi, r"^50$", r"read_two_char\(")
                 if e:
                     edges_true.update(e)
         ok = bool(edges_true) and len(piv) == 2
@@ -834,7 +848,7 @@ def check_time_pivots(ctx, f):
         ctx.ob("R-SIB", "%s:two-digit-year-pivot-50" % short(root_fn(f, b.name)) + ("" if "opt" not in b.name else ""), ok,
                "%s maps yy ≥ 50 to 19yy and yy < 50 to 20yy (the encoder's UTCTime range 1950..=2049)" % short(root_fn(f, b.name)),
                where=b.loc, detail=detail)
-    ctx.floor("R-SIB", "UTCTime decoder copies with a year pivot", npiv, 2)
+    ctx.floor("R-SIB", "UTCTime field readers with a year pivot", npiv, 1)
 
 
 # ---------------------------------------------------------------------------
